@@ -94,7 +94,7 @@ class C23(Prop):
         "device/fifo members, global PAX headers and sparse members are outside the model (oracle only).")
     TECHNIQUE = ("Coq proof (simulation between a chunked and a flat reader; completeness of finished members) + "
                  "vm_compute correspondence of the model against extract_tar_stream/aiotarstream on real archives")
-    RULE = ("extract: random trees (nested dirs, empty files, sizes around 0/511/512/513/1024, names >100 bytes, "
+    RULE = ("extract: random trees (nested dirs, empty files, sizes around 0/511/512/513/1024, names >100 bytes, paths of exactly 510/511/512/1023/1024 bytes (GNU long-name payload at the block boundary), "
             "unicode/blank/quote/dash names, exec bits, symlinks, hard links) archived by Python tarfile "
             "(GNU/PAX/USTAR), GNU tar (gnu/posix/ustar/oldgnu) or the async writer, fed to the real "
             "extract_tar_stream through a fake StreamWrapper with fixed chunk sizes {1,2,3,7,64,511,512,513,4096} or "
@@ -136,6 +136,31 @@ class C23(Prop):
             left -= n
         return out
 
+    DEEP = [510, 511, 512, 1023, 1024]
+
+    def _deep(self, rng, ents, used, base, target=None, kind=None, size=None):
+        """a member whose path is exactly `target` bytes long (GNU long-name payload = path [+ "/"] + NUL at the 512
+        block boundary), reached through directories whose components fit NAME_MAX"""
+        target = target or rng.choice(self.DEEP)
+        kind = kind or rng.choice("ffd")
+        path = base
+        while target - len(path) - 1 > 200:
+            path = path + "/" + "D" * min(200, target - len(path) - 3)
+            if path not in used:
+                used.add(path)
+                ents.append({"n": path, "k": "d", "m": 0o755})
+        name = path + "/" + "E" * (target - len(path) - 1)
+        used.add(name)
+        if kind == "d":
+            ents.append({"n": name, "k": "d", "m": 0o755})
+        else:
+            n = rng.choice([0, 0, 5, 513]) if size is None else size
+            ents.append({"n": name, "k": "f", "m": 0o644, "c": [[n, 70]] if n else []})
+        # a member after it: the one a misaligned reader would drop
+        nxt = base + "/zz" + str(target)
+        used.add(nxt)
+        ents.append({"n": nxt, "k": "f", "m": 0o600, "c": [[7, 90]]})
+
     def _tree(self, rng, single, links, big=False, maxn=8):
         base = self._name(rng, long_ok=False)
         fmode = lambda: rng.choice([0o644, 0o644, 0o755, 0o600, 0o444, 0o664])
@@ -145,6 +170,8 @@ class C23(Prop):
         ents = [{"n": base, "k": "d", "m": dmode()}]
         dirs, files = [base], []
         used = {base}
+        if not big and rng.random() < 0.14:
+            self._deep(rng, ents, used, base)
         for _ in range(rng.randrange(1, maxn)):
             parent = rng.choice(dirs)
             name = parent + "/" + self._name(rng)
